@@ -32,11 +32,16 @@ def mk_signal(it, state=None, sensitivity=None):
 
 
 def same_storage(a, b):
+    if isinstance(a, CArr) and isinstance(b, CArr):
+        import numpy as np
+        return a is b or a.data is b.data or np.shares_memory(a.data, b.data)
+    if isinstance(a, CArr) or isinstance(b, CArr):
+        return False
     return root_of(a)[0] is root_of(b)[0]
 
 
 # ------------------------------------------------------------------------------------------------ Signal
-for _kind in ('array', 'array2d', 'float', 'complex'):
+for _kind in ('array', 'array2d', 'array0d', 'float', 'complex'):
     @harness(P, f'Signal.add_sensitivity[{_kind}]', targets=[T('Signal.add_sensitivity'), T('Signal.__init__')])
     def h_add(ctx, it, kind=_kind):
         """None is a no-op; the first contribution is stored as a fresh copy (never an alias of the argument); later contributions are
@@ -44,12 +49,19 @@ for _kind in ('array', 'array2d', 'float', 'complex'):
         n, m = ctx.sym('n'), ctx.sym('m')
         ctx.assume(z3.And(n >= 1, m >= 1))
         shape = {'array': (n,), 'array2d': (n, m)}.get(kind)
+        is_array = kind.startswith('array')
         if shape:
             ds1, D1 = arr(ctx, 'ds1', shape)
             ds2, D2 = arr(ctx, 'ds2', shape)
             i = idx_in(ctx, 'i', shape)
             val = lambda a: a.at(*i)
             v1, v2 = D1(*i), D2(*i)
+        elif kind == 'array0d':
+            shape = ()
+            v1, v2 = ctx.sym('ds1', 'real'), ctx.sym('ds2', 'real')
+            ds1, ds2 = to_carr(v1), to_carr(v2)          # rank-0 ndarrays are mutable storages like any other array
+            val = lambda a: a.data[()] if isinstance(a, CArr) else a
+            i = ()
         elif kind == 'float':
             ds1, ds2 = ctx.sym('ds1', 'real'), ctx.sym('ds2', 'real')
             val = lambda a: a
@@ -65,15 +77,16 @@ for _kind in ('array', 'array2d', 'float', 'complex'):
         it.call(it.getattr(s, 'add_sensitivity'), [ds1])
         sens1 = it.getattr(s, 'sensitivity')
         ctx.prove('first_add.value', V.cmp('==', val(sens1), v1))
-        if shape:
-            ctx.prove('first_add.fresh_storage', not same_storage(sens1, ds1))
+        if is_array:
+            ctx.prove('first_add.is_array', isinstance(sens1, (CArr, LArr)))
+            ctx.prove('first_add.fresh_storage', isinstance(sens1, (CArr, LArr)) and not same_storage(sens1, ds1))
             ctx.prove('first_add.shape', all(V.cmp('==', a, b) is True for a, b in zip(sens1.shape, shape)))
         it.call(it.getattr(s, 'add_sensitivity'), [None])
         ctx.prove('none_noop_after_first', it.getattr(s, 'sensitivity') is sens1)
         it.call(it.getattr(s, 'add_sensitivity'), [ds2])
         sens2 = it.getattr(s, 'sensitivity')
         ctx.prove('later_add.value', V.cmp('==', val(sens2), V.add(v1, v2)))
-        if shape:
+        if is_array:
             ctx.prove('later_add.in_place', sens2 is sens1)
             ctx.prove('later_add.not_aliased_to_arg', not same_storage(sens2, ds2))
             ctx.prove('args_unchanged', V.and_(V.cmp('==', val(ds1), v1), V.cmp('==', val(ds2), v2)))
@@ -136,7 +149,7 @@ def slice_cases(ctx, n, m):
     yield 'row', (n, m), a, (lambda i: z3.And(i[0] == a, a < V.zint(n))), (lambda i: (i[1],)), (m,)
 
 
-for _sl in ('basic', 'tuple', 'row', 'fancy', 'nested'):
+for _sl in ('basic', 'tuple', 'row', 'fancy', 'tuple_fancy', 'nested'):
     @harness(P, f'SignalSlice.read_write[{_sl}]', targets=[T('SignalSlice.state'), T('SignalSlice.sensitivity'), T('SignalSlice.add_sensitivity'),
                                                            T('SignalSlice.reset'), T('SignalSlice.__init__'), T('Signal.__getitem__')])
     def h_slice(ctx, it, sl=_sl):
@@ -162,6 +175,20 @@ for _sl in ('basic', 'tuple', 'row', 'fancy', 'nested'):
             selected = lambda i: z3.And(INV(i[0]) >= 0, INV(i[0]) < k, IDX(INV(i[0])) == i[0])
             to_slice = lambda i: (INV(i[0]),)
             sshape = (k,)
+        elif sl == 'tuple_fancy':
+            # basic slice on the first axis combined with an integer array (no repeats) on the second: numpy returns a copy
+            k = ctx.sym('k')
+            a, b = ctx.sym('a'), ctx.sym('b')
+            ctx.assume(z3.And(k >= 0, a >= 0, a <= b, b <= V.zint(n)))
+            IDX = z3.Function('idx', z3.IntSort(), z3.IntSort())
+            INV = z3.Function('idx_inv', z3.IntSort(), z3.IntSort())
+            q = z3.Int('q!idx')
+            ctx.hyps.append(z3.ForAll([q], z3.Implies(z3.And(q >= 0, q < k), z3.And(IDX(q) >= 0, IDX(q) < V.zint(m), INV(IDX(q)) == q))))
+            index = (slice(a, b), LArr((k,), lambda i: IDX(V.zint(i[0])), 'int', inv=lambda v: INV(V.zint(v))))
+            shape = (n, m)
+            selected = lambda i: z3.And(i[0] >= a, i[0] < b, INV(i[1]) >= 0, INV(i[1]) < k, IDX(INV(i[1])) == i[1])
+            to_slice = lambda i: (i[0] - a, INV(i[1]))
+            sshape = (b - a, k)
         else:
             a, b, c, d = (ctx.sym(x) for x in 'abcd')
             ctx.assume(z3.And(a >= 0, a <= b, b <= V.zint(n), c >= 0, c <= d, d <= b - a))
